@@ -2,7 +2,7 @@
 # import_seed.sh <Cxx> <A|B> <mK>: take a sub-agent's round-2 output from /tmp/seedout/<Cxx>-r2/<A|B>,
 # store it as /verif/seeded/<Cxx>-<mK>/ and verify it on a scratch worktree (tools/verify_seed.sh).
 p=$1; x=$2; k=$3
-src=/tmp/seedout/$p-r2/$x; dst=/verif/seeded/$p-$k
+src=/tmp/seedout/$p-${ROUND:-r2}/$x; dst=/verif/seeded/$p-$k
 [ -f $src/patch.diff ] || { echo "$src: no patch.diff"; exit 2; }
 mkdir -p $dst
 cp $src/patch.diff $dst/patch.diff
@@ -17,7 +17,8 @@ if d.startswith('./'): d=d[2:]
 run=re.search(r'-run\s+(\S+)',m['demo_cmd']).group(1)
 pkg='.' if d in ('.','') else './'+d
 m['demo_cmd']=f"go test -mod=mod -vet=off -count=1 -run {run} {pkg}"
-m['round']=2
+import os
+m["round"]=int(os.environ.get("ROUND","r2")[1:])
 json.dump(m,open(dst+'/meta.json','w'),indent=1,ensure_ascii=False)
 PY
 /verif/tools/verify_seed.sh $dst
